@@ -23,6 +23,19 @@ use smartcalc::{
 
 static LAST_PANIC: Mutex<Option<String>> = Mutex::new(None);
 
+// Logger that keeps only the records of the verification hook (target "verif_ui"); installed before the
+// library's own logger, which then stays uninstalled (it would print every debug line to stdout).
+static UI_LOG: Mutex<Vec<String>> = Mutex::new(Vec::new());
+struct HookLogger;
+impl log::Log for HookLogger {
+    fn enabled(&self, m: &log::Metadata) -> bool { m.target() == "verif_ui" }
+    fn log(&self, r: &log::Record) {
+        if r.target() == "verif_ui" { UI_LOG.lock().unwrap().push(format!("{}", r.args())); }
+    }
+    fn flush(&self) {}
+}
+static HOOK_LOGGER: HookLogger = HookLogger;
+
 fn bits(v: f64) -> String {
     format!("{:016x}", v.to_bits())
 }
@@ -156,6 +169,15 @@ fn new_calc() -> SmartCalc {
     c
 }
 
+fn with_ui_log<T>(f: impl FnOnce() -> T) -> (T, Vec<String>) {
+    UI_LOG.lock().unwrap().clear();
+    log::set_max_level(log::LevelFilter::Trace);
+    let r = f();
+    log::set_max_level(log::LevelFilter::Off);
+    let l = std::mem::take(&mut *UI_LOG.lock().unwrap());
+    (r, l)
+}
+
 macro_rules! result_json {
     ($res:expr, $detail:expr) => {{
         let res = &$res;
@@ -255,8 +277,15 @@ fn do_op(st: &mut State, op: &Value) -> Value {
             json!({"ok": true})
         }
         "exec" => {
-            let res = st.calc.execute(op["lang"].as_str().unwrap(), op["text"].as_str().unwrap());
-            result_json!(res, detail)
+            if op.get("uilog").and_then(|v| v.as_bool()).unwrap_or(false) {
+                let (res, l) = with_ui_log(|| st.calc.execute(op["lang"].as_str().unwrap(), op["text"].as_str().unwrap()));
+                let mut v = result_json!(res, detail);
+                v["uilog"] = json!(l);
+                v
+            } else {
+                let res = st.calc.execute(op["lang"].as_str().unwrap(), op["text"].as_str().unwrap());
+                result_json!(res, detail)
+            }
         }
         "exec_fresh" => {
             let c = new_calc();
@@ -390,6 +419,8 @@ fn main() {
         *LAST_PANIC.lock().unwrap() = Some(format!("{} @ {} <- {}", msg, loc, site));
     }));
 
+    let _ = log::set_logger(&HOOK_LOGGER);
+    log::set_max_level(log::LevelFilter::Off);
     let (tx, rx) = mpsc::channel::<String>();
     let builder = std::thread::Builder::new().stack_size(256 * 1024 * 1024);
     let _worker = builder.spawn(move || {
